@@ -43,7 +43,8 @@ def families(rng, thorough):
         fams.append(f)
     for X in (A, I):
         fams.append([{"s": "Optional", "arg": X}, {"s": "Pipe", "args": [X, NONE]}, {"s": "Pipe", "args": [NONE, X]},
-                     {"s": "Union", "args": [X, NONE]}, {"s": "Union", "args": [NONE, X]}])  # (X, None) as a tuple is not among the listed equivalent forms
+                     {"s": "Union", "args": [X, NONE]}, {"s": "Union", "args": [NONE, X]},
+                     {"s": "Tuple", "args": [X, NONE]}, {"s": "Tuple", "args": [NONE, X]}])  # (None in a tuple of types is the class of None, as in the other forms)
     fams.append([{"s": "missing"}, {"s": "any"}, {"s": "object"}, {"s": "Annotated", "arg": {"s": "object"}},
                  {"s": "Annotated", "arg": {"s": "any"}}, {"s": "Str", "arg": {"s": "any"}}])
     for X in (A, I, {"s": "list", "arg": A}):
@@ -63,6 +64,8 @@ def families(rng, thorough):
         fams.append([ty({"s": "Optional", "arg": X}), ty({"s": "Pipe", "args": [X, NONE]}), ty({"s": "Union", "args": [NONE, X]})])
         fams.append([ty(X), ty({"s": "Annotated", "arg": X})])
     fams.append([ty({"s": "object"}), ty({"s": "any"}), ty({"s": "Annotated", "arg": {"s": "any"}})])
+    for X in (A, I):
+        fams.append([ty({"s": "list", "arg": X}), ty({"s": "List", "arg": X})])
     for vals in ([1, 2], [1, 2, 3]):
         fams.append([{"s": "Literal", "vals": list(p)} for p in itertools.permutations(vals)])
     return fams
